@@ -509,6 +509,82 @@ class Executor:
             return ("glob", self.program.canonical(ref))
         return ("glob", ref[1] if len(ref) > 1 else dotted)
 
+    def _holder(self, name, st: St, want):
+        """(owner qualname, {slot: initial value node}) when *name*, seen from the current frame, is a local of an ENCLOSING scope bound there exactly once
+        to a state holder -- want 'attr': types.SimpleNamespace(...) or an instance of a class defined in that scope (or at module level);
+        want 'item': a one-element list display.  The handlers' `holder.x = v` / `holder[0] = v` then stand for `nonlocal x; x = v`:
+        per-subscription state kept in an object instead of closure variables.  None otherwise."""
+        fr = st.frame
+        if name in fr.env:
+            return None
+        mod = fr.mod
+        sc = mod.scopes.get(fr.fn)
+        if sc is None or (name in sc.locals and name not in sc.nonlocals) or name in sc.params:
+            return None
+        cur = sc.parent
+        while cur is not None:
+            if name in cur.params:
+                return None
+            if name in cur.locals and name not in cur.nonlocals:
+                break
+            cur = cur.parent
+        if cur is None or not isinstance(cur.node, (ast.FunctionDef, ast.AsyncFunctionDef)):
+            return None
+        cache = mod.__dict__.setdefault("_holder_cache", {})
+        key = (id(cur.node), name)
+        if key not in cache:
+            val = None
+            n_bind = 0
+            for s in ast.walk(cur.node):
+                if mod.enclosing_function(s) is not cur.node:
+                    continue
+                if isinstance(s, ast.Assign):
+                    for tg in s.targets:
+                        for x in ast.walk(tg):
+                            if isinstance(x, ast.Name) and x.id == name and isinstance(x.ctx, ast.Store):
+                                n_bind += 1
+                                val = s.value if (len(s.targets) == 1 and tg is x) else None
+                elif isinstance(s, (ast.AugAssign, ast.AnnAssign, ast.For, ast.NamedExpr, ast.With)):
+                    tgs = [s.target] if hasattr(s, "target") else [i.optional_vars for i in s.items if i.optional_vars is not None]
+                    for tg in tgs:
+                        if any(isinstance(x, ast.Name) and x.id == name for x in ast.walk(tg)):
+                            n_bind += 2
+            kind, init = None, {}
+            if n_bind == 1 and val is not None:
+                if isinstance(val, ast.Call) and not val.args:
+                    dn = ast.unparse(val.func)
+                    if dn in ("types.SimpleNamespace", "SimpleNamespace") and all(k.arg for k in val.keywords):
+                        kind, init = "attr", {k.arg: k.value for k in val.keywords}
+                    elif isinstance(val.func, ast.Name) and not val.keywords:
+                        cls = [c for c in ast.walk(cur.node) if isinstance(c, ast.ClassDef) and c.name == val.func.id] or \
+                              [c for c in mod.tree.body if isinstance(c, ast.ClassDef) and c.name == val.func.id]
+                        if len(cls) == 1 and not cls[0].bases and not cls[0].decorator_list:
+                            body = cls[0].body
+                            meths = [b for b in body if isinstance(b, ast.FunctionDef)]
+                            # a plain record: class-level defaults and / or an __init__ that only assigns constants to self
+                            ok = all(m.name == "__init__" for m in meths)
+                            for b in body:
+                                if isinstance(b, ast.Assign) and len(b.targets) == 1 and isinstance(b.targets[0], ast.Name) and b.targets[0].id != "__slots__":
+                                    init[b.targets[0].id] = b.value
+                            for m in meths:
+                                if len(m.args.args) != 1:
+                                    ok = False
+                                for b in m.body:
+                                    if isinstance(b, ast.Assign) and len(b.targets) == 1 and isinstance(b.targets[0], ast.Attribute) \
+                                            and isinstance(b.targets[0].value, ast.Name) and b.targets[0].value.id == m.args.args[0].arg:
+                                        init[b.targets[0].attr] = b.value
+                                    elif not (isinstance(b, ast.Expr) and isinstance(b.value, ast.Constant)) and not isinstance(b, ast.Pass):
+                                        ok = False
+                            if ok:
+                                kind = "attr"
+                elif isinstance(val, ast.List) and len(val.elts) == 1 and not isinstance(val.elts[0], ast.Starred):
+                    kind, init = "item", {0: val.elts[0]}
+            cache[key] = (kind, cur.qualname, init)
+        kind, owner, init = cache[key]
+        if kind != want:
+            return None
+        return owner, init
+
     def owner_of_nonlocal(self, name, st: St):
         fr = st.frame
         sc = fr.mod.scopes.get(fr.fn)
@@ -680,6 +756,21 @@ class Executor:
                 if not done:
                     return
             yield st, None
+        elif isinstance(tgt, ast.Subscript) and isinstance(tgt.value, ast.Name) and isinstance(tgt.slice, ast.Constant) and tgt.slice.value == 0 \
+                and not isinstance(tgt.slice.value, bool) and self._holder(tgt.value.id, st, "item") is not None:
+            owner = self._holder(tgt.value.id, st, "item")[0]
+            name = "%s[0]" % tgt.value.id
+            st.heap[(name, owner)] = t
+            st.epoch += 1
+            st.trace.append(Eff("nonlocal", node, mod, name=name, owner=owner, value=t))
+            yield st, None
+        elif isinstance(tgt, ast.Attribute) and isinstance(tgt.value, ast.Name) and self._holder(tgt.value.id, st, "attr") is not None:
+            owner = self._holder(tgt.value.id, st, "attr")[0]
+            name = "%s.%s" % (tgt.value.id, tgt.attr)
+            st.heap[(name, owner)] = t
+            st.epoch += 1
+            st.trace.append(Eff("nonlocal", node, mod, name=name, owner=owner, value=t))
+            yield st, None
         elif isinstance(tgt, ast.Subscript):
             for s1, ts in self.eval_seq([tgt.value, tgt.slice], st):
                 if is_raise(ts):
@@ -717,7 +808,56 @@ class Executor:
             else:
                 yield from self.exec_block(node.orelse, s1)
 
+    def st_Match(self, node, st):
+        """match <name>: with class patterns without sub-patterns, value patterns, or-patterns of those and a wildcard is the if / elif
+        chain of isinstance / == tests it stands for"""
+        subj = node.subject
+
+        def test_of(pat):
+            if isinstance(pat, ast.MatchClass) and not pat.patterns and not pat.kwd_patterns:
+                return ast.Call(func=ast.Name(id="isinstance", ctx=ast.Load()), args=[subj, pat.cls], keywords=[])
+            if isinstance(pat, ast.MatchValue):
+                return ast.Compare(left=subj, ops=[ast.Eq()], comparators=[pat.value])
+            if isinstance(pat, ast.MatchSingleton):
+                return ast.Compare(left=subj, ops=[ast.Is()], comparators=[ast.Constant(pat.value)])
+            if isinstance(pat, ast.MatchOr):
+                parts = [test_of(x) for x in pat.patterns]
+                return None if any(x is None for x in parts) else ast.BoolOp(op=ast.Or(), values=parts)
+            if isinstance(pat, ast.MatchAs) and pat.pattern is None and pat.name is None:
+                return ast.Constant(True)
+            return None
+        if not isinstance(subj, ast.Name):
+            raise AnalysisError("match on %s not supported at %s (a name is expected)" % (ast.unparse(subj)[:30], st.frame.mod.where(node)))
+        chain = None
+        for case in reversed(node.cases):
+            tst = test_of(case.pattern)
+            if tst is None:
+                raise AnalysisError("match pattern %s not supported at %s" % (ast.unparse(case.pattern)[:40], st.frame.mod.where(node)))
+            if case.guard is not None:
+                tst = ast.BoolOp(op=ast.And(), values=[tst, case.guard])
+            nxt = ast.If(test=tst, body=case.body, orelse=[chain] if chain is not None else [])
+            ast.copy_location(nxt, case.pattern)
+            chain = nxt
+        ast.fix_missing_locations(chain)
+        for n in ast.walk(chain):
+            if not hasattr(n, "lineno"):
+                ast.copy_location(n, node)
+        yield from self.st_If(chain, st)
+
     def st_With(self, node, st):
+        # with contextlib.suppress(E, ...): body   ==   try: body / except (E, ...): pass
+        if len(node.items) == 1 and node.items[0].optional_vars is None and isinstance(node.items[0].context_expr, ast.Call):
+            ce = node.items[0].context_expr
+            if ast.unparse(ce.func) in ("contextlib.suppress", "suppress") and ce.args and not ce.keywords:
+                typ = ce.args[0] if len(ce.args) == 1 else ast.Tuple(elts=list(ce.args), ctx=ast.Load())
+                handler = ast.ExceptHandler(type=typ, name=None, body=[ast.Pass()])
+                tr = ast.Try(body=node.body, handlers=[handler], orelse=[], finalbody=[])
+                for x in (handler, tr, typ):
+                    ast.copy_location(x, node)
+                ast.fix_missing_locations(tr)
+                yield from self.st_Try(tr, st)
+                return
+
         def items(k, s):
             if k == len(node.items):
                 yield from self.exec_block(node.body, s)
@@ -1108,6 +1248,12 @@ class Executor:
             yield s1, (t if is_raise(t) else ("star", t))
 
     def ex_Attribute(self, node, st):
+        if isinstance(node.value, ast.Name):
+            h = self._holder(node.value.id, st, "attr")
+            if h is not None:
+                key = ("%s.%s" % (node.value.id, node.attr), h[0])
+                yield st, (st.heap[key] if key in st.heap else ("free", key[0], h[0]))
+                return
         for s1, b in self.eval(node.value, st):
             if is_raise(b):
                 yield s1, b
@@ -1142,6 +1288,12 @@ class Executor:
         return None
 
     def ex_Subscript(self, node, st):
+        if isinstance(node.value, ast.Name) and isinstance(node.slice, ast.Constant) and node.slice.value == 0 and not isinstance(node.slice.value, bool):
+            h = self._holder(node.value.id, st, "item")
+            if h is not None:
+                key = ("%s[0]" % node.value.id, h[0])
+                yield st, (st.heap[key] if key in st.heap else ("free", key[0], h[0]))
+                return
         for s1, ts in self.eval_seq([node.value, node.slice], st):
             if is_raise(ts):
                 yield s1, ts
